@@ -228,13 +228,13 @@ class PortVertex(Vertex):
 
 class BrittleEdge(UnDirectedEdge):
     """
-    An edge that will not take a vertex tagged 4 once it is built: its
+    An edge that will not take a vertex tagged 3 or more once it is built: its
     add_vertex override raises before anything is recorded on the edge -- in the
     middle of whatever call on the vertex side wanted to attach the two.
     """
 
     def add_vertex(self, new):
-        if len(self.vertices) >= 2 and getattr(new, "sim_tag", None) == 4:
+        if len(self.vertices) >= 2 and getattr(new, "sim_tag", 0) >= 3:
             from egsim.seams import InjectedFault
 
             raise InjectedFault("edge will not take this vertex")
@@ -253,6 +253,40 @@ class NestingEdge(DirectedEdge):
         from edgegraph.builder import randgraph
 
         self.detail = randgraph.randgraph(count=3)
+
+
+class LatePortVertex(Vertex):
+    """
+    A vertex with room for two links that finds out too late: its add_to_link
+    override lets the base class record the link first and raises afterwards
+    (a capacity check, a journal write, done after the fact).  By then both
+    sides of the association have been recorded.
+    """
+
+    def add_to_link(self, link):
+        super().add_to_link(link)
+        if len(self.links) > 2:
+            from egsim.seams import InjectedFault
+
+            raise InjectedFault("port over capacity")
+
+
+class SpanEdge(DirectedEdge):
+    """
+    A directed edge whose truth value means "both ends attached": instances
+    are falsy while they are being built (and whenever an end is unset).
+    """
+
+    def __bool__(self):
+        ends = self.vertices
+        return len(ends) == 2 and all(e is not None for e in ends)
+
+
+class ArcEdge(DirectedEdge):
+    """A directed edge that describes itself by both of its ends."""
+
+    def __repr__(self):
+        return f"<Arc {getattr(self.v1, 'i', '?')} -> {getattr(self.v2, 'i', '?')}>"
 
 
 class SubDirected(DirectedEdge):
@@ -361,6 +395,7 @@ VERTEX_CLASSES = {
     "MigratingVertex": MigratingVertex,
     "JournalVertex": JournalVertex,
     "PortVertex": PortVertex,
+    "LatePortVertex": LatePortVertex,
 }
 UNIVERSE_CLASSES = {
     "Universe": Universe,
@@ -387,6 +422,8 @@ EDGE_CLASSES = {
     "LabelledEdge": LabelledEdge,
     "BrittleEdge": BrittleEdge,
     "NestingEdge": NestingEdge,
+    "SpanEdge": SpanEdge,
+    "ArcEdge": ArcEdge,
 }
 ALL_CLASSES = dict(VERTEX_CLASSES)
 ALL_CLASSES.update(UNIVERSE_CLASSES)
@@ -396,7 +433,7 @@ ALL_CLASSES["UniverseLaws"] = UniverseLaws
 
 
 def is_directed(clsname):
-    return clsname in ("DirectedEdge", "SubDirected", "RenamedDirected")
+    return clsname in ("DirectedEdge", "SubDirected", "RenamedDirected", "SpanEdge", "ArcEdge")
 
 
 def is_undirected(clsname):
